@@ -3,6 +3,7 @@ import re
 from .model import short, const_val
 from .roles import Roles, INNER, KEYFILE, VALFILE, M_KEY, M_VAL
 from .util import where, origins, calls_to, leaf_origins, in_cycle, find_bool_split, region_dominated, tracer, is_call_to, field_stores
+from .fields import dot, fq
 from . import flushpath as fp, k7
 
 EXPLANATION = (
@@ -22,6 +23,50 @@ ASSUMPTIONS = ["BTree/Vec helpers used to accumulate the histograms behave as do
 CHECK = "abyssiniandb::filedb::CheckFileDbMap"
 METHODS = ["count_of_free_key_piece", "count_of_free_value_piece", "key_piece_size_stats", "value_piece_size_stats",
            "keys_count_stats", "key_length_stats", "value_length_stats", "htx_filling_rate_per_mill"]
+
+
+def _by_sig(prog, owner, pref, n_inputs, out_pat, trait=False, extra=None):
+    """A method of `owner` by preferred name, else the unique one with this arity / return type (private names may change)."""
+    c = [f for f in prog.fns.values() if f.impl_self_adt == owner and f.crate == "abyssiniandb" and f.kind == "AssocFn" and (f.impl_trait is not None) == trait]
+    byname = [f for f in c if f.name == pref]
+    if len(byname) == 1:
+        return byname
+    got = [f for f in c if len(f.inputs) == n_inputs and out_pat in short(f.output) and (extra is None or extra(f))]
+    return got if len(got) == 1 else []
+
+
+def _K(kind):
+    return "Key" if kind == "key" else "Value"
+
+
+def walk_getter(prog, kind):
+    return _by_sig(prog, INNER, "%s_piece_offset_iter" % kind, 1, "%sPieceOffsetIter" % _K(kind))
+
+
+def length_loader(prog, kind):
+    return _by_sig(prog, INNER, "load_%s_length" % kind, 2, "Result<Length<%s>" % _K(kind))
+
+
+def size_loader(prog, kind):
+    return _by_sig(prog, INNER, "load_%s_piece_size" % kind, 2, "Result<Size<Piece<%s>>" % _K(kind))
+
+
+def file_walker(prog, owner, kind):
+    return _by_sig(prog, owner, "piece_offset_iter", 1, "%sPieceOffsetIter" % _K(kind))
+
+
+def piecea(prog, owner):
+    """{'size','start','end'} -> the PieceA methods of a record file, by arity and by whether they touch the file."""
+    ms = [f for f in prog.fns.values() if f.impl_self_adt == owner and (f.impl_trait or "").endswith("::PieceA")]
+    out = {}
+    for f in ms:
+        if len(f.inputs) == 2:
+            out["size"] = f
+        elif any((t.get("callee") or "").startswith("abyssiniandb::") for b, t in f.calls() if not f.is_cleanup(b) and "::new" not in (t.get("callee") or "")):
+            out["end"] = f
+        else:
+            out["start"] = f
+    return out if len(ms) == 3 and len(out) == 3 else {}
 
 
 def _check_own(ctx):
@@ -56,7 +101,7 @@ def _check_own(ctx):
         ok = len(s) == 1
         if ok:
             o = origins(prog, inner[0], s[0][1]["args"][0], at=s[0][0])
-            want = ".key_file" if kind == "key" else ".val_file"
+            want = dot(prog, "INNER.key_file") if kind == "key" else dot(prog, "INNER.val_file")
             ok = bool(o) and all(x.kind == "param" and x.proj and x.proj[-1].endswith(want) for x in o)
         ctx.check(ok, "free-count", kind + ":own-file", "the inner %s does not ask its own %s file" % (m, kind), where=where(inner[0]))
         # iterates the file's own table
@@ -131,10 +176,12 @@ def _check_own(ctx):
         ctx.check(_shape(kf) == _shape(vf), "siblings", "%s~%s" % (km, vm),
                   "%s and %s are no longer the same function modulo Key<->Value (the two histograms would be computed differently)" % (km, vm), where=where(vf))
         for f, kind in ((kf, "key"), (vf, "value")):
-            walk = [(b, t) for b, t in f.calls() if (t.get("callee") or "").endswith("::%s_piece_offset_iter" % kind)]
+            wg = walk_getter(prog, kind)
+            walk = calls_to(prog, f, target_fn=wg[0]) if wg else []
             ok = len(walk) == 1
             touch = [(b, t) for b, t in f.calls() if (t.get("callee") or "").rsplit("::", 1)[-1] in ("touch_size", "touch_length")]
-            lens = [(b, t) for b, t in f.calls() if (t.get("callee") or "").endswith("::load_%s_length" % kind)]
+            ll = length_loader(prog, kind)
+            lens = calls_to(prog, f, target_fn=ll[0]) if ll else []
             ok = ok and len(touch) == 1 and len(lens) == 1 and in_cycle(f, touch[0][0])
             if ok:
                 # loads use the offset yielded by the walk
@@ -147,11 +194,12 @@ def _check_own(ctx):
                 ok = ok and len(zs) == 1 and touch[0][0] in region_dominated(f, zs[0]["false"])
             ctx.check(ok, "siblings", f.name + ":counts-live-only", "%s does not walk its own file's slots and count only records with a non-zero length" % f.name, where=where(f))
     # own-file walkers
-    for kind, fld in (("key", ".key_file"), ("value", ".val_file")):
-        w = prog.find(name="%s_piece_offset_iter" % kind, self_adt=INNER)
+    for kind, fld in (("key", dot(prog, "INNER.key_file")), ("value", dot(prog, "INNER.val_file"))):
+        w = walk_getter(prog, kind)
         ok = len(w) == 1
         if ok:
-            c = [(b, t) for b, t in w[0].calls() if (t.get("callee") or "").endswith("::piece_offset_iter")]
+            fw = file_walker(prog, KEYFILE if kind == "key" else VALFILE, kind)
+            c = calls_to(prog, w[0], target_fn=fw[0]) if fw else []
             ok = len(c) == 1
             if ok:
                 o = origins(prog, w[0], c[0][1]["args"][0], at=c[0][0])
@@ -168,19 +216,51 @@ def _check_own(ctx):
         o1 = origins(prog, sw, ad[0][1]["args"][1], at=ad[0][0])
         po = origins(prog, sw, ps[0][1]["args"][1], at=ps[0][0])
         ok = {x.key() for x in o0} == {x.key() for x in po} and bool(o1) and all(x.kind == "call" and x.block == ps[0][0] for x in o1)
-        ok = ok and all(x.kind == "param" and x.proj and x.proj[-1].endswith(".piece_offset") for x in po)
+        ok = ok and all(x.kind == "param" and x.proj and x.proj[-1].endswith(dot(prog, "WALK.cur")) for x in po)
     ctx.check(ok, "slot-walk", "advance-by-stored-size", "the slot walk does not advance by the size stored at the current offset", where=where(sw))
     conds = [c for c in k7.conditions(prog, sw) if c[3][0] in ("Lt", "Le", "Gt", "Ge")]
-    ok = any(c[3][0] == "Lt" and c[3][2][0] == "p" and c[3][2][2] and c[3][2][2][-1].endswith(".piece_offset_end") for c in conds)
+    ok = any(c[3][0] == "Lt" and c[3][2][0] == "p" and c[3][2][2] and c[3][2][2][-1].endswith(dot(prog, "WALK.end")) for c in conds)
     ctx.check(ok, "slot-walk", "stops-at-end", "the slot walk does not stop at the end of the file (next < end)", where=where(sw))
     for kind, owner, mod in (("key", KEYFILE, M_KEY), ("val", VALFILE, M_VAL)):
-        st = [f for f in prog.fns.values() if f.name == "piece_offset_start" and f.impl_self_adt == owner]
+        st = [piecea(prog, owner)["start"]] if piecea(prog, owner) else []
         ok = len(st) == 1
         if ok:
             o = leaf_origins(prog, st[0], {"k": "cp", "pl": {"l": 0, "p": []}}, terminal_only=True)
             c = prog.consts.get(mod + "::DAT_HEADER_SZ")
             ok = bool(o) and c is not None and all(x.kind == "const" and x.data == int(c["v"]["int"]) for x in o)
         ctx.check(ok, "slot-walk", kind + ":starts-after-header", "the %s slot walk does not start right after the header" % kind)
+    # ---- (2b) the figures are the stored fields themselves, and the walk's size reader touches nothing but the size field
+    from .util import stored_value_sources, reachable_fns
+    from .roles import M_VFILE
+    want = {"load_key_piece_size": ("R_PIECE_SIZE", size_loader(prog, "key")), "load_value_piece_size": ("R_PIECE_SIZE", size_loader(prog, "value")),
+            "load_key_length": ("R_KEY_LEN", length_loader(prog, "key")), "load_value_length": ("R_VAL_LEN", length_loader(prog, "value"))}
+    n_src = 0
+    for nm, (role, fs) in want.items():
+        if not ctx.check(len(fs) == 1, "stat-is-stored-field", nm + ":anchor", "%s not found" % nm):
+            continue
+        src = stored_value_sources(prog, fs[0], M_VFILE)
+        n_src += 1
+        ctx.check(src == {R.need(role).id}, "stat-is-stored-field", nm,
+                  "%s does not return the stored field as read by %s (sources: %s): the histogram would report something else than the file holds"
+                  % (nm, R.need(role).name, sorted(short(x) for x in src)), where=where(fs[0]))
+    readers = {R.need(r).id: r for r in ("R_PIECE_SIZE", "R_PIECE_OFFSET", "R_KEY_LEN", "R_VAL_LEN", "R_FREE_OFFSET")}
+    sizers = [piecea(prog, o_)["size"] for o_ in (KEYFILE, VALFILE) if piecea(prog, o_)]
+    ctx.floor("stat-is-stored-field", "PieceA::piece_size implementations", len(sizers), 2)
+    for f in sizers:
+        kind = "key" if "KeyFile" in (f.impl_self_adt or "") else "val"
+        src = stored_value_sources(prog, f, M_VFILE)
+        n_src += 1
+        ctx.check(src == {R.need("R_PIECE_SIZE").id}, "stat-is-stored-field", "walk-stride:" + kind,
+                  "the %s slot walk's stride is not the stored size field (sources: %s)" % (kind, sorted(short(x) for x in src)), where=where(f))
+        reach = reachable_fns(prog, [f], crates=("abyssiniandb",))
+        got = sorted(readers[i] for i in reach if i in readers)
+        shallow = reachable_fns(prog, [f], crates=("abyssiniandb",), stop=set(readers))
+        payload = sorted({(t.get("callee") or "").rsplit("::", 1)[-1] for g in shallow.values() for b, t in g.calls()
+                          if (t.get("callee") or "").rsplit("::", 1)[-1] in ("read_exact_maybeslice", "read_exact", "read_to_end")})
+        ctx.check(got == ["R_PIECE_SIZE"] and not payload, "slot-walk", "size-reader-minimal:" + kind,
+                  "the %s slot walk's size reader also decodes %s: a free slot holds a free-list link where a live record has its other fields, so the walk fails or goes astray on files with free slots"
+                  % (kind, [x for x in got if x != "R_PIECE_SIZE"] + payload), where=where(f))
+    ctx.floor("stat-is-stored-field", "figure sources traced", n_src, 6)
     # ---- (3) filling rate
     hf = R.need("HTX_FILL")
     ctx.touch(hf, len(hf.blocks))
@@ -195,7 +275,7 @@ def _check_own(ctx):
         if ok:
             lo = origins(prog, hf, rng[0][1]["rhs"]["ops"][0], at=rng[0][0])
             hi = origins(prog, hf, rng[0][1]["rhs"]["ops"][1], at=rng[0][0])
-            ok = all(x.kind == "const" and x.data == 0 for x in lo) and bool(hi) and all(x.proj and x.proj[-1].endswith("VarFileHtxCache.buckets_size") for x in hi)
+            ok = all(x.kind == "const" and x.data == 0 for x in lo) and bool(hi) and all(x.proj and x.proj[-1].endswith(fq(prog, "HTXCACHE.buckets_size")) for x in hi)
     ctx.check(ok, "filling-rate", "all-buckets", "htx_filling_rate_per_mill does not read every bucket 0..cached bucket count", where=where(hf))
     def zp2(o):
         return o.kind == "call" and (o.data.get("callee") or "").endswith("::is_zero") and bl and \
